@@ -27,6 +27,8 @@ extern int g_exc;
 
 /* ghost clock: incremented by every add / remove event (64 bit, assumed not to overflow) */
 extern unsigned long long g_clock;
+extern _Bool g_b0, g_b1, g_b2, g_b3;              /* snapshot ghosts, see ghost_globals.h */
+extern unsigned long long g_u0, g_u1, g_u2, g_u3;
 
 static inline void mutex_lock_(Mutex *m)
 {
